@@ -46,12 +46,12 @@ CATALOGUE = [
     ("empty_branch_not_removed", S + "token.py", '        string = string.replace("(.)", "")\n', "", ["C05", "C06"]),
     ("descriptor_not_removed_after_attach", S + "mol_gen.py", "        del other_bond_descriptors[other_bond_idx]\n", "", ["C04", "C06"]),
     ("sz_params_swapped", S + "distribution.py", "        self._Mw, self._Mn = make_tuple(self._raw_text[len(\"schulz_zimm\") :])",
-     "        self._Mn, self._Mw = make_tuple(self._raw_text[len(\"schulz_zimm\") :])", ["C09", "C10", "C11", "C13", "C14", "C16", "C20"]),
-    ("lognormal_mean_shift", S + "distribution.py", "(np.log(m / M) + np.log(D) / 2) ** 2", "(np.log(m / M) - np.log(D) / 2) ** 2", ["C09", "C10", "C11", "C13", "C14", "C16", "C20"]),
+     "        self._Mn, self._Mw = make_tuple(self._raw_text[len(\"schulz_zimm\") :])", ["C09", "C10", "C11", "C13", "C14", "C16", "C18", "C20"]),
+    ("lognormal_mean_shift", S + "distribution.py", "(np.log(m / M) + np.log(D) / 2) ** 2", "(np.log(m / M) - np.log(D) / 2) ** 2", ["C09", "C10", "C11", "C13", "C14", "C16", "C18", "C20"]),
     ("gauss_sigma_as_variance", S + "distribution.py", "stats.norm(loc=self._mu, scale=self._sigma)", "stats.norm(loc=self._mu, scale=np.sqrt(self._sigma))", ["C09"]),
     ("poisson_truncated_mean", S + "distribution.py", "        self._N = float(self._raw_text[len(\"poisson\") + 1 : -1])",
-     "        self._N = float(int(float(self._raw_text[len(\"poisson\") + 1 : -1])))", ["C09", "C10", "C11", "C13", "C14", "C16", "C20"]),
-    ("uniform_scale_is_high", S + "distribution.py", "stats.uniform(loc=self._low, scale=(self._high - self._low))", "stats.uniform(loc=self._low, scale=self._high)", ["C09", "C10", "C11", "C13", "C14", "C16", "C20"]),
+     "        self._N = float(int(float(self._raw_text[len(\"poisson\") + 1 : -1])))", ["C09", "C10", "C11", "C13", "C14", "C16", "C18", "C20"]),
+    ("uniform_scale_is_high", S + "distribution.py", "stats.uniform(loc=self._low, scale=(self._high - self._low))", "stats.uniform(loc=self._low, scale=self._high)", ["C09", "C10", "C11", "C13", "C14", "C16", "C18", "C20"]),
     ("flory_pmf_exponent", S + "distribution.py", "a**2 * k * (1 - a) ** (k - 1)", "a**2 * k * (1 - a) ** k", ["C11", "C09"]),
     ("interval_uses_pdf", S + "distribution.py",
      "            return self._distribution.cdf(mw.value) - self._distribution.cdf(mw.previous)\n",
@@ -77,6 +77,13 @@ CATALOGUE = [
     ("graph_trans_ignores_left_terminal_compat", S + "molecule.py",
      "                            graph_bd.is_compatible(other_bd)\n                            and other_bd.is_compatible(next_element.left_terminal)\n                            and bond_descriptors[other_bd] in next_element.repeat_tokens\n                        ):\n                            G.add_edge(\n                                graph_bd, other_bd, trans_prob=other_bd.weight / total_weight\n                            )\n\n                if isinstance(element, Stochastic) and isinstance(next_element, SmilesToken):",
      "                            graph_bd.is_compatible(other_bd)\n                            and bond_descriptors[other_bd] in next_element.repeat_tokens\n                        ):\n                            G.add_edge(\n                                graph_bd, other_bd, trans_prob=other_bd.weight / total_weight\n                            )\n\n                if isinstance(element, Stochastic) and isinstance(next_element, SmilesToken):", ["C16"]),
+    ("ag_termination_single_atom", S + "graph_generate.py", "            self._fill_static_edges(last_node_id, edges_allowed=False)\n", "", ["C18"]),
+    ("ag_charge_dropped", S + "graph_generate.py", "            atom.SetFormalCharge(int(node[1].get(\"formal_charge\", 0)))\n", "", ["C18"]),
+    ("ag_static_bond_type_single", S + "graph_generate.py", "            bond_type = edge[2][\"bond_type\"]\n            self.graph.add_edge(atom_a, atom_b, bond_type=bond_type)",
+     "            bond_type = 1\n            self.graph.add_edge(atom_a, atom_b, bond_type=bond_type)", ["C18"]),
+    ("ag_rng_default_in_terminate", S + "graph_generate.py", "                    idx = self.rng.choice(len(edge_list), p=weights)\n", "                    idx = np.random.default_rng().choice(len(edge_list), p=weights)\n", ["C18"]),
+    ("ag_stochastic_bond_to_wrong_node", S + "graph_generate.py", "        self.graph.add_edge(node, new_node_idx, bond_type=new_bond_type)\n        return new_node_idx",
+     "        self.graph.add_edge(max(0, node - 1), new_node_idx, bond_type=new_bond_type)\n        return new_node_idx", ["C18"]),
     ("premature_end_ignored_weight", S + "stochastic.py",
      "                if len(my_mol.bond_descriptors) == 0:", "                if len(my_mol.bond_descriptors) <= 1 and str(self.right_terminal) == \"[]\":", ["C07", "C06"]),
 ]
@@ -115,7 +122,7 @@ def run_one(entry, runs, all_props=False, out=sys.stdout):
         shutil.copytree(os.path.join("/repo", "src"), os.path.join(tmp, "src"), ignore=shutil.ignore_patterns("__pycache__", "*.egg-info"))
         apply(entry, tmp)
         results = {}
-        check_props = props if not all_props else ["C04", "C05", "C06", "C07", "C08", "C09", "C10", "C11", "C13", "C14", "C16", "C20"]
+        check_props = props if not all_props else ["C04", "C05", "C06", "C07", "C08", "C09", "C10", "C11", "C13", "C14", "C16", "C18", "C20"]
         for pid in check_props:
             env = dict(os.environ)
             env.update({"GBSIM_REPO": tmp, "GBSIM_RUNS": str(runs), "PYTHONHASHSEED": "0", "GBSIM_EVIDENCE_DIR": os.path.join(tmp, "ev"),
